@@ -91,6 +91,32 @@ def w_loopback(ctx: core.Ctx, arg):
             sub.get_status()
             ctx.count('loopback.renew_getstatus')
         consumer.stop_all(unsubscribe=True)
+        if consumer_mode == 'enforced' and provider_tls:
+            # the consumer is started again, now against a peer whose TLS handshake fails: it must fail, never fall back to plaintext
+            n_conn = len(net.connections)
+            world.provider_server.scheme = 'http'
+            server2 = net.new_server(scheme='https')
+            try:
+                consumer.start_all(shared_http_server=server2)
+                restart_outcome = 'connected'
+            except Exception as ex2:  # noqa: BLE001
+                restart_outcome = type(ex2).__name__
+            finally:
+                world.provider_server.scheme = 'https'
+            ctx.count(f'loopback.restart_against_failing_handshake.{restart_outcome}')
+            for netloc, sslctx in net.connections[n_conn:]:
+                if int(netloc.rsplit(':', 1)[1]) == world.provider_server.server_port and sslctx is None:
+                    ctx.witness('connect.enforced_fallback_after_restart',
+                                'a consumer with enforced TLS opened a plaintext connection when it was started again and the TLS handshake failed',
+                                {**label, 'restart_outcome': restart_outcome})
+                    break
+            if restart_outcome == 'connected':
+                ctx.witness('connect.enforced_fallback_after_restart', 'a consumer with enforced TLS connected to a peer whose TLS handshake fails',
+                            {**label, 'restart_outcome': restart_outcome})
+            try:
+                consumer.stop_all(unsubscribe=False)
+            except Exception:  # noqa: BLE001
+                pass
         world.provider.stop_all(send_subscription_end=True)
     except Exception as ex:  # noqa: BLE001
         outcome = f'{type(ex).__name__}'
